@@ -26,7 +26,7 @@ CLAIMS = {
             "every length 0..400 x magic variants x fills, captures +-1..3 bytes and every model code are sent to a running bridge; callbacks, warnings, loop exception-handler calls and log records are compared with the gate predicate",
             "content inside gate-passing frames with a known model code is not judged here", "5/C06"),
     "C07": ("model_checking", "stateless exploration of all datagram sequences x port assignments x event-loop service orders x raising callbacks on a controlled selector",
-            "every order in which the loop can service ready ports is enumerated for every datagram sequence to the bound, with the user callback raising (four exception kinds) on chosen invocations; the per-port callback log must equal the reference decode of that port's valid datagrams; plus seven callback shapes, the four well-known default ports and eleven kinds of sender address",
+            "every order in which the loop can service ready ports is enumerated for every datagram sequence to the bound, with the user callback raising (four exception kinds) on chosen invocations; the per-port callback log must equal the reference decode of that port's valid datagrams; plus seven callback shapes, the four well-known default ports, eleven kinds of sender address, a bridge object dropped after start, and runs of up to 130 (1030) consecutive failures on one port",
             "one datagram is read per readiness event (asyncio selector datagram transport); kernel queues are FIFO per socket", "5/C07"),
     "C08": ("exploration", "bounded exhaustive input enumeration of reply fields through the real state queries against a reference reply encoder",
             "every reply field is swept over its whole domain through get_state / get_shutter_state / get_breeze_state on a real stream and compared with the reference decode",
@@ -47,7 +47,7 @@ CLAIMS = {
             "7 weekdays x 128 day sets x a minute grid with equality and both neighbours x zones east and west of UTC, compared with an earliest-occurrence reference; every call is also run with the clock passing midnight / the start minute before each of its clock reads",
             "time-machine pins the clock; the local date supplies the weekday", "5/C13"),
     "C14": ("exploration", "complete enumeration of all 1440 x 1440 pairs",
-            "every (start, end) pair is evaluated against modular arithmetic", "none beyond the HH:MM alphabet", "5/C14"),
+            "every (start, end) pair is evaluated against modular arithmetic; a subset again in DST zones and with today on leap days, year ends and dates after 2038", "none beyond the HH:MM alphabet", "5/C14"),
     "C15": ("exploration", "bounded exhaustive input enumeration of generated IR sets x all requests against a reference key-selection model",
             "generated IR sets whose code text names its own key are crossed with every request; the built payload reveals the chosen key, which is compared with the reference model; capabilities and the manager cache are enumerated too",
             "IR sets are generated, not the vendor database (empty in this tree)", "5/C15"),
